@@ -90,3 +90,37 @@ def tau_a(x, y):
     n1 = sum(c * (c - 1) / 2.0 for c in np.unique(x, return_counts=True)[1])
     n2 = sum(c * (c - 1) / 2.0 for c in np.unique(y, return_counts=True)[1])
     return float(tb * math.sqrt((n0 - n1) * (n0 - n2)) / n0)
+
+
+def ks_excess_at_resolution(sample, cdf, delta):
+    """One-sample KS statistic that treats every sampled value x as the interval [x-delta(x), x+delta(x)]:
+    the empirical CDF must lie between F(x-delta) and F(x+delta) up to the returned excess.  This is the
+    right comparison when F rises by a visible amount within the floating-point resolution of x (e.g. a
+    Gamma with shape 0.1 and |loc| ~ 1e3: F(loc + ulp) = 0.03), where x = F^-1(u) cannot be represented."""
+    x = np.sort(np.asarray(sample, dtype=float))
+    n = len(x)
+    d = np.asarray(delta(x), dtype=float)
+    with np.errstate(invalid='ignore'):
+        hi = np.asarray(cdf(x + d), dtype=float)
+        lo = np.asarray(cdf(x - d), dtype=float)
+    hi = np.where(np.isnan(hi), 1.0, hi)
+    lo = np.where(np.isnan(lo), 0.0, lo)
+    upper = np.arange(1, n + 1) / n - hi        # empirical mass up to x_i must not exceed F(x_i + delta)
+    lower = lo - np.arange(0, n) / n            # ... and F(x_i - delta) must not exceed the mass below x_i
+    return float(max(upper.max(), lower.max(), 0.0))
+
+
+def resolution_of(uni):
+    """delta(x) for a fitted library univariate: a few ulp of max(|x|, |loc|+|scale|)."""
+    try:
+        d = uni.to_dict()
+        mag = abs(float(d.get('loc', 0.0))) + abs(float(d.get('scale', 0.0)))
+    except Exception:
+        mag = 0.0
+    eps = np.finfo(float).eps
+
+    def delta(x):
+        x = np.asarray(x, dtype=float)
+        return 8 * eps * np.maximum(np.where(np.isfinite(x), np.abs(x), 0.0), mag)
+
+    return delta
